@@ -203,7 +203,17 @@ def check(facts, rep, tier, cfg):
             for x in walk(cn[3][1]):
                 if x.kind == "field" and x[2].isdigit() and strip(x[1]).kind == "param":
                     pn.add(b.upvar_names.get(int(x[2])))
-            if idok and names == {"host"} and pn == {"port"}:
+            from an import inexact_steps as _ix
+
+            def _up(x):
+                return (x.kind == "field" and x[2].isdigit() and strip(x[1]).kind == "param") or x.kind == "param"
+            ixp = _ix(cn[3][1], _up, 16)
+            ixh = _ix(cn[3][0], _up, None, extra_calls=("as_bytes", "as_ref", "deref"))
+            if idok and names == {"host"} and pn == {"port"} and (ixp or ixh):
+                rep.bad("C07.R5", "connect-args-exact", where,
+                        "the Connect frame carries a %s computed from the caller's argument (`%s`), not the argument itself: the accepting "
+                        "application does not see exactly the requested %s" % (("port", ixp[0], "port") if ixp else ("host", ixh[0], "host bytes")))
+            elif idok and names == {"host"} and pn == {"port"}:
                 rep.ok("C07.R5", "connect-args", where, "new_connect(host, port, id<-allocator, rwnd)")
             else:
                 rep.bad("C07.R5", "connect-args", where, "Connect built from host=%s port=%s id=%s" % (sorted(names, key=str), sorted(pn, key=str), fmt(idn)[:80]))
